@@ -791,9 +791,17 @@ func gen(c *hxlib.Ctx) {
 		},
 		allK: 24, maxFan: 9, pShift: 60, pCrash: 70, pSync: 120, pFlush: 40, pRestart: 20}
 
+	t0 := time.Now()
+	lap := func(what string) {
+		if os.Getenv("C03_TIMING") != "" {
+			fmt.Fprintf(os.Stderr, "%s: %v\n", what, time.Since(t0))
+		}
+		t0 = time.Now()
+	}
 	for i := 0; i < c.N(34); i++ {
 		genHistory(c, r, short, nil)
 	}
+	lap("short")
 	// crash right after Shift with a partial first record in the new segment,
 	// also after two Shifts in a row (empty middle segment)
 	for i := 0; i < c.N(12); i++ {
@@ -807,9 +815,11 @@ func gen(c *hxlib.Ctx) {
 	for i := 0; i < c.N(12); i++ {
 		genHistory(c, r, shifty, nil)
 	}
+	lap("shift")
 	for i := 0; i < c.N(14); i++ {
 		genHistory(c, r, long, nil)
 	}
+	lap("long")
 	// the buffer exactly full / one byte over, crash without any flush
 	for i := 0; i < c.N(4); i++ {
 		var forced []opJ
@@ -820,9 +830,11 @@ func gen(c *hxlib.Ctx) {
 		forced = append(forced, opJ{Op: "crash"})
 		genHistory(c, r, long, forced)
 	}
+	lap("bufio")
 	for i := 0; i < c.N(250); i++ {
 		genDisk(c, r)
 	}
+	lap("disk")
 	// lib/Crc32c against Go's crc32 (Castagnoli)
 	tab := crc32.MakeTable(crc32.Castagnoli)
 	for i := 0; i < c.N(120); i++ {
